@@ -21,6 +21,8 @@ def gen(rng, quick):
     s, p, m, g = pyed.RFC8032_PH
     ops.append({"op": "sig.sign_prehashed", "in": [list(bytes.fromhex(s)), list(bytes.fromhex(m)), []], "rfc": {"sig": g}})
     ops.append({"op": "sig.sign_prehashed", "in": [list(bytes.fromhex(s)), list(bytes.fromhex(m)), []], "noctx": True, "rfc": {"sig": g}})
+    for _ in range(3):
+        ops.append({"op": "rng.signing_key", "in": [le(rng.getrandbits(256))]})
     for seed in seeds:
         ops.append({"op": "sig.keygen", "in": [seed]})
         pk = list(pyed.public(seed))
